@@ -68,7 +68,13 @@ def run(P: Program, R: Report, tier: str) -> None:
     ext_seen = set()
     for f, root in sorted(eps, key=lambda x: x[0].qname):
         eff = E.effects_on(f, root)
-        content = [(pa, w) for pa, k, w in eff if k == "content"]
+        # an underscore-private attribute of the object itself (a call counter, a memo kept by a query) is not part of the state
+        # the property names (graph, attributes, segmentation, scale, feature registry, lookups, history); whether a memo can go
+        # stale is decided by the memo-discipline rule of C01 / C03 / C06 / C07 / C09
+        private = [(pa, w) for pa, k, w in eff if k == "content" and pa and pa[0].startswith("_") and not pa[0].startswith("__")]
+        for pa, w in private[:1]:
+            R.ok("R16.1", f, w, f"{f.short}({root}): writes only private bookkeeping `{root}.{pa[0]}`", via="exception:private-bookkeeping")
+        content = [(pa, w) for pa, k, w in eff if k == "content" and not (pa and pa[0].startswith("_") and not pa[0].startswith("__"))]
         order = [(pa, w) for pa, k, w in eff if k == "order"]
         if not content:
             R.ok("R16.1", f, f.node, f"{f.short}({root}): no content write reachable from `{root}`", via="effect-analysis")
